@@ -55,7 +55,8 @@ def payload_gen(rng, now):
     else:
         for k in ('exp', 'nbf', 'iat'):
             if rng.random() < 0.5: p[k] = time_claim(rng, now)
-    if rng.random() < 0.05: p = rng.choice([[1, 2], 'str', 7, {'sub': 7}, {'user': 'x'}, {'sub': 'a', 'extra': {'k': [1]}}])
+    if rng.random() < 0.12: p['big'] = rng.choice([0, 7, 2 ** 53 + 1, 2 ** 64 - 1, 2 ** 64, 2 ** 100 + 3, 2 ** 128 - 1])          # an integer claim of the payload type (u128): beyond 64 bits a JSON tree cannot hold it
+    if rng.random() < 0.05: p = rng.choice([[1, 2], 'str', 7, {'sub': 7}, {'user': 'x'}, {'sub': 'a', 'extra': {'k': [1]}}, {'sub': 'a', 'big': -1}, {'sub': 'a', 'big': 2 ** 128}, {'sub': 'a', 'big': 'x'}])
     return p
 
 
@@ -74,7 +75,7 @@ def view_of(decoded):
         if isinstance(x, bool) or not isinstance(x, (int, Fraction)): return 'other'
         f = Fraction(x)
         return {'neg': f < 0, 'n': abs(f.numerator), 'd': f.denominator}
-    ok = isinstance(o, dict) and isinstance(o.get('sub'), str)
+    ok = isinstance(o, dict) and isinstance(o.get('sub'), str) and (o.get('big') is None or (isinstance(o['big'], int) and not isinstance(o['big'], bool) and 0 <= o['big'] < 2 ** 128))
     return {'typ': s('typ'), 'cty': s('cty'), 'alg': s('alg'), 'nbf': c('nbf'), 'exp': c('exp'), 'iat': c('iat'), '_ok': ok, '_obj': o}
 
 
@@ -142,7 +143,9 @@ def corpus():
             mk(A, S, now, 'GET', t({'sub': 'a', 'exp': now + 0.5})), mk(A, S, now, 'GET', t({'sub': 'a', 'exp': now})), mk(A, S, now, 'GET', t({'sub': 'a', 'exp': now + 1})),
             mk(A, S, now, 'GET', t({'sub': 'a', 'nbf': now})), mk(A, S, now, 'GET', t({'sub': 'a', 'nbf': now + 1})), mk(A, S, now, 'GET', t({'sub': 'a', 'iat': now + 1})),
             mk(A, S, now, 'GET', t({'sub': 'a', 'exp': str(now + 9)})), mk(A, S, now, 'GET', b'Bearer ' + good), mk(A, S, now, 'GET', None), mk(A, S, now, 'OPTIONS', None),
-            mk(A, S, now, 'GET', good), mk(A, S, now, 'GET', b'bearer ' + good), mk(A, S, now, 'GET', None, issue={'sub': 'alice', 'exp': now + 60}, kind='issued')]
+            mk(A, S, now, 'GET', good), mk(A, S, now, 'GET', b'bearer ' + good), mk(A, S, now, 'GET', None, issue={'sub': 'alice', 'exp': now + 60}, kind='issued'),
+            mk(A, S, now, 'GET', None, issue={'sub': 'alice', 'big': str(2 ** 128 - 1)}, kind='issued'),             # was: a token issued by the configuration itself refused with 500 (the typed payload was read through serde_json::Value)
+            mk(A, S, now, 'GET', t({'sub': 'a', 'big': 2 ** 64})), mk(A, S, now, 'GET', t({'sub': 'a', 'big': 2 ** 128}))]
 
 
 def generate(rng, tier):
@@ -156,6 +159,7 @@ def generate(rng, tier):
             if rng.random() < 0.5: pl['exp'] = now + rng.choice([1, 1000])
             if rng.random() < 0.3: pl['nbf'] = now - rng.choice([0, 5])
             if rng.random() < 0.3: pl['iat'] = now
+            if rng.random() < 0.3: pl['big'] = str(rng.choice([0, 7, 2 ** 64 - 1, 2 ** 64, 2 ** 100 + 3, 2 ** 128 - 1]))          # (decimal text in the case; the executor puts the number into the payload it issues)
             out.append(mk(alg, secret, now, 'GET', None, issue=pl, kind='issued'))
         elif r < 0.15: out.append(mk(alg, secret, now, 'OPTIONS', rng.choice([None, b'Bearer x.y.z']), kind='options'))
         elif r < 0.18: out.append(mk(alg, secret, now, 'GET', rng.choice([None, b'', b'Bearer', b'Bearer ', b'Basic dTpw', b'Token abc']), kind='noauth'))
@@ -199,6 +203,7 @@ def admits(case, auth):
 def canon_payload(o):
     if not isinstance(o, dict): return o
     out = {'sub': o.get('sub')}
+    if o.get('big') is not None: out['big'] = int(o['big'])
     for k in ('exp', 'nbf', 'iat'):
         if k in o and o[k] is not None: out[k] = float(o[k]) if isinstance(o[k], Fraction) else o[k]
     return out
@@ -206,6 +211,7 @@ def canon_payload(o):
 
 def spec_check(case, out):
     if 'panic' in out: return 'panic: ' + out['panic'][:120]
+    if 'seen' not in out: out['seen'] = json.loads(out['seen_text']) if out.get('seen_text') is not None else None
     if case['method'] == 'OPTIONS': return 'handler ran on an OPTIONS request without a token' if out['ran'] and case['auth'] is None else None
     if case.get('issue') is not None:
         if not out['ran']: return f'a token issued by the same configuration is refused (status {out["status"]})'
